@@ -261,6 +261,8 @@ def run(c):
     builds = e2e.build_many(c.seed, range(n), lambda i: ["-errors"] if i % 3 == 1 else [], work)
     # the solo table (one attribute per method: every type x presence x validation x location, a format AND a pattern on one string)
     builds += e2e.build_many(c.seed, range(4 if c.tier == "quick" else 12), lambda i: ["-solo-design"], work)
+    # alias types with validations, and validations given in the HTTP mapping on top of them
+    builds += e2e.build_many(c.seed, range(2 if c.tier == "quick" else 10), lambda i: ["-alias-design"], work)
     for b in builds:
         if b.error:
             c.hist("build", "rejected" if b.error.startswith("rejected") else "failed")
@@ -536,6 +538,11 @@ def judge_design(c, b, drv, per_valid, cap):
             c.hist("attribute_verdicts", "doc=%s spec=%s" % ("accepts" if d["docR"] else "rejects", "valid" if d["spec"] else "invalid"))
             if d["docR"] != d["docM"]:
                 modelled = True
+                mapping_val = any(mp["attr"] == name and mp.get("val") for key2 in ("params", "headers", "cookies") for mp in (m.get("http") or {}).get(key2) or [])
+                fatt = dict(b.schema.fields(m["payload"])).get(name) or {}
+                alias = b.schema.types.get((fatt.get("type") or {}).get("ref") or "")
+                if lc == "param" and alias and (alias.get("att") or {}).get("val") and (mapping_val or fatt.get("val")):
+                    lc = "param/validations-of-alias-type-and-of-the-mapping"
                 c.fail("c14/document-schema-differs-from-model:" + lc,
                        "%s.%s attribute %r (%s) [%s]: the schema in openapi3.json %s this value, the schema goa is modelled to emit %s it" %
                        (s["name"], m["name"], name, d["loc"], label, "accepts" if d["docR"] else "rejects", "accepts" if d["docM"] else "rejects"),
